@@ -25,6 +25,14 @@ def main(p):
     rng = np.random.default_rng(6)
     print("params:", json.dumps(p))
     n = max(1, min(int(p["n"]), 5000))
+    with tempfile.TemporaryDirectory() as d0:
+        # history: an earlier, unrelated depth-changing write in the same process must not influence this one
+        try:
+            w0 = base_header(d0, 2, 4).prep_outfile(os.path.join(d0, "pre.fil"), nbits=16)
+            w0.cwrite(np.zeros(8, dtype=np.uint16))
+            w0.close()
+        except Exception:  # noqa: BLE001
+            pass
     with tempfile.TemporaryDirectory() as d:
         if p["kind"] == "fmt":
             fmt = p["item"][0]
